@@ -224,7 +224,7 @@ def promises(case, t, dims):
 
 # ------------------------------------------------------------------ oracles
 
-SOFT = ('dofs-union-single', 'support-union-single')   # failures that do not invalidate the remaining oracles
+SOFT = ('dofs-union-single', 'support-union-single', 'phantom-dof')   # failures that do not invalidate the remaining oracles
 
 
 class Failures(list):
@@ -605,7 +605,14 @@ def check_case(case, stats=None, ctx=None):
     elemdofs, elemcoeffs = elementwise(t, basis, vals, idx, coords, fails, stats)
     if fails:
         return fails
-    supports(t, basis, elemdofs, fails)
+    listed = set(int(x) for dofs in elemdofs for x in dofs)
+    phantom = [j for j in range(ndofs) if j not in listed]
+    if phantom:
+        # a function that no element lists is identically zero: the basis over-counts its functions.  Rank deficiency and
+        # a get_support that disagrees are consequences, not separate findings
+        fails.add('phantom-dof', '{} of the {} functions are listed by no element (identically zero): {}'.format(len(phantom), ndofs, phantom[:8]))
+    else:
+        supports(t, basis, elemdofs, fails)
     if _relerr(ssum, vals.sum(axis=1)) > TOL * max(1., _amax(vals)):
         fails.add('sum-inconsistent', 'eval(basis.sum(0)) differs from eval(basis).sum(1) by {:.3e}'.format(_relerr(ssum, vals.sum(axis=1))))
     if prom['pou']:
@@ -634,7 +641,7 @@ def check_case(case, stats=None, ctx=None):
             want = numpy.stack(pieces, axis=1) if pieces else numpy.zeros((len(idx), 0))
             if vals.shape != want.shape or _relerr(vals, want) > TOL:
                 fails.add('partition-restriction', 'the partitioned basis is not the stack per part of the clipped parent functions ({} vs {} functions)'.format(vals.shape[1], want.shape[1]))
-    if prom['independent']:
+    if prom['independent'] and not phantom:
         A = vals
         if prom['trimmed']:
             # a sliver of a cut element makes the restricted functions numerically dependent although they are not; judge
